@@ -182,11 +182,114 @@ def extract(repo):
     return {"table": table, "order": names}
 
 
+# ----------------------------------------------------------------------------- closed-form operators: bodies regenerated from the source
+def expr(node, env):
+    """Gallina term (over an abstract record of field operations Op) of an element-wise Python expression"""
+    if isinstance(node, ast.Name):
+        if node.id not in env:
+            raise Untranslatable(f"name {node.id}")
+        return env[node.id]
+    if isinstance(node, ast.Constant) and type(node.value) is int and node.value in (0, 1, 2):
+        return {0: "(f0 Op)", 1: "(f1 Op)", 2: "(two Op)"}[node.value]
+    if isinstance(node, ast.BinOp):
+        ops = {ast.Add: "fadd", ast.Sub: "fsub", ast.Mult: "fmul", ast.Div: "fdiv"}
+        if type(node.op) not in ops:
+            raise Untranslatable(ast.unparse(node))
+        return f"({ops[type(node.op)]} Op {expr(node.left, env)} {expr(node.right, env)})"
+    if isinstance(node, ast.Call) and isinstance(node.func, ast.Attribute) and _name(node.func.value) == "tl":
+        fn = node.func.attr
+        if fn in ("sign", "abs") and len(node.args) == 1 and not node.keywords:
+            return f"({'fsign' if fn == 'sign' else 'fabs'} Op {expr(node.args[0], env)})"
+        if fn == "clip" and len(node.args) == 1 and [(k.arg, getattr(k.value, 'value', None)) for k in node.keywords] == [("a_min", 0)]:
+            return f"(relu Op {expr(node.args[0], env)})"
+    raise Untranslatable(ast.unparse(node))
+
+
+def _single_return(fn):
+    b = _body(fn)
+    if len(b) != 1 or not isinstance(b[0], ast.Return) or b[0].value is None:
+        raise Untranslatable(f"{fn.name}: body is not a single return")
+    return b[0].value
+
+
+def _argnames(fn, expected):
+    names, _ = _defaults(fn)
+    if names != list(expected):
+        raise Untranslatable(f"{fn.name}: parameters {names}, expected {list(expected)}")
+
+
+def extract_closed_forms(repo):
+    """-> dict of Gallina terms for soft_thresholding, l2_square_prox, l2_prox (both branches), soft_sparsity_prox, normalized_sparsity_prox"""
+    tree = ast.parse(open(os.path.join(repo, "tensorly", "tenalg", "proximal.py")).read())
+    out = {}
+    f = _func(tree, "soft_thresholding"); _argnames(f, ("tensor", "threshold"))
+    out["soft1"] = expr(_single_return(f), {"tensor": "x", "threshold": "t"})
+    f = _func(tree, "l2_square_prox"); _argnames(f, ("tensor", "regularizer"))
+    out["l2sq"] = expr(_single_return(f), {"tensor": "x", "regularizer": "t"})
+    # l2_prox: norm = tl.norm(tensor); if norm > regularizer: return <a>; return <b>
+    f = _func(tree, "l2_prox"); _argnames(f, ("tensor", "regularizer"))
+    b = _body(f)
+    ok = (len(b) == 3 and isinstance(b[0], ast.Assign) and len(b[0].targets) == 1 and _name(b[0].targets[0]) == "norm"
+          and _is_call(b[0].value, "norm", "tl") and _args_are(b[0].value, ("tensor",))
+          and isinstance(b[1], ast.If) and not b[1].orelse and len(b[1].body) == 1 and isinstance(b[1].body[0], ast.Return)
+          and isinstance(b[1].test, ast.Compare) and len(b[1].test.ops) == 1 and isinstance(b[1].test.ops[0], ast.Gt)
+          and _name(b[1].test.left) == "norm" and _name(b[1].test.comparators[0]) == "regularizer" and isinstance(b[2], ast.Return))
+    if not ok:
+        raise Untranslatable("l2_prox: " + ast.unparse(f)[:300])
+    env = {"tensor": "x", "regularizer": "t", "norm": "s"}
+    out["l2_then"] = expr(b[1].body[0].value, env); out["l2_else"] = expr(b[2].value, env)
+    # soft_sparsity_prox: simplex_prox(<e1(tensor)>, threshold) * <e2(tensor)>
+    f = _func(tree, "soft_sparsity_prox"); _argnames(f, ("tensor", "threshold"))
+    r = _single_return(f)
+    ok = (isinstance(r, ast.BinOp) and isinstance(r.op, ast.Mult) and _is_call(r.left, "simplex_prox") and len(r.left.args) == 2
+          and not r.left.keywords and _name(r.left.args[1]) == "threshold")
+    if not ok:
+        raise Untranslatable("soft_sparsity_prox: " + ast.unparse(r))
+    out["ss_inner"] = expr(r.left.args[0], {"tensor": "x"}); out["ss_outer"] = expr(r.right, {"tensor": "x"})
+    # normalized_sparsity_prox: tensor_hard = hard_thresholding(tensor, threshold); return tensor_hard / tl.norm(tensor_hard)
+    f = _func(tree, "normalized_sparsity_prox"); _argnames(f, ("tensor", "threshold"))
+    b = _body(f)
+    ok = (len(b) == 2 and isinstance(b[0], ast.Assign) and len(b[0].targets) == 1 and _name(b[0].targets[0]) == "tensor_hard"
+          and _is_call(b[0].value, "hard_thresholding") and _args_are(b[0].value, ("tensor", "threshold"))
+          and isinstance(b[1], ast.Return) and isinstance(b[1].value, ast.BinOp) and isinstance(b[1].value.op, ast.Div)
+          and _name(b[1].value.left) == "tensor_hard" and _is_call(b[1].value.right, "norm", "tl") and _args_are(b[1].value.right, ("tensor_hard",)))
+    if not ok:
+        raise Untranslatable("normalized_sparsity_prox: " + ast.unparse(f)[:300])
+    return out
+
+
+def coq_closed_forms(cf):
+    return f"""
+(* closed-form operators: bodies regenerated from the Python source, over an abstract record of field operations *)
+Definition soft1_src {{F : Type}} (Op : fops F) (t x : F) : F := {cf['soft1']}.
+Definition l2sq_src {{F : Type}} (Op : fops F) (t x : F) : F := {cf['l2sq']}.
+Definition l2_then_src {{F : Type}} (Op : fops F) (s t x : F) : F := {cf['l2_then']}.
+Definition l2_else_src {{F : Type}} (Op : fops F) (s t x : F) : F := {cf['l2_else']}.
+Definition ss_inner_src {{F : Type}} (Op : fops F) (x : F) : F := {cf['ss_inner']}.
+Definition ss_outer_src {{F : Type}} (Op : fops F) (x : F) : F := {cf['ss_outer']}.
+Lemma soft1_src_ok : forall F (Op : fops F) t v, soft_thresholding Op t v = map (soft1_src Op t) v.
+Proof. reflexivity. Qed.
+Lemma soft_arr_src_ok : forall F (Op : fops F) ts v, soft_thresholding_arr Op ts v = map (fun tx => soft1_src Op (fst tx) (snd tx)) (combine ts v).
+Proof. reflexivity. Qed.
+Lemma l2sq_src_ok : forall F (Op : fops F) t v, l2_square_prox Op t v = map (l2sq_src Op t) v.
+Proof. reflexivity. Qed.
+Lemma l2_src_ok : forall F (Op : fops F) s t v, l2_prox_with Op s t v = if fltb Op t s then map (l2_then_src Op s t) v else map (l2_else_src Op s t) v.
+Proof. reflexivity. Qed.
+Lemma soft_sparsity_src_ok : forall F (Op : fops F) p v,
+  soft_sparsity_prox Op p v = map (fun ab => fmul Op (fst ab) (ss_outer_src Op (snd ab))) (combine (simplex_prox Op p (map (ss_inner_src Op) v)) v).
+Proof. reflexivity. Qed.
+(* a theorem re-checked against the regenerated body: the regenerated soft-thresholding expression is the exact minimiser *)
+Lemma soft1_src_optimal : forall t x z, (0 <= t)%R ->
+  (t * Rabs (soft1_src Rops t x) + (soft1_src Rops t x - x) * (soft1_src Rops t x - x) / 2 <= t * Rabs z + (z - x) * (z - x) / 2)%R.
+Proof. exact Proofs.ProxProofs.soft1_optimal. Qed.
+"""
+
+
 def coq_source(ex):
     arms = "\n".join(f"  | Constraints.{KIND[n]} => {ex['table'][n]}" for n in ex["order"])
     order = "; ".join("Constraints." + KIND[n] for n in ex["order"])
     return f"""From Coq Require Import List Reals QArith Qreals Bool.
-From TLV Require Import Base.Ops Base.Tensor Model.Prox Model.Constraints Model.ProxDispatch Proofs.ProxProofsMatrix Proofs.ProxProofsRun.
+From TLV Require Import Base.Ops Base.Tensor Model.Prox Model.Constraints Model.ProxDispatch Proofs.ProxProofs Proofs.ProxProofsMatrix Proofs.ProxProofsRun.
 Import ListNotations.
 (* regenerated from the Python source of proximal_operator / validate_constraints *)
 Definition pop_of_src {{F : Type}} (conv : Q -> F) (k : Constraints.kind) (p : Q) (aux : F) : @pop F :=
@@ -236,4 +339,58 @@ def run_static(chk):
         info["status"] = "ok"; info["branches"] = len(ex["table"])
         shutil.rmtree(d, ignore_errors=True)
     chk.checker_cmds.append("coqc on the dispatch table regenerated from the source (corr:C12-static): pop_of_src = pop_of, prun_sound_src")
+    info["closed_forms"] = run_closed_forms(chk, d)
     return info
+
+
+HEAD = """From Coq Require Import List Reals QArith Qreals Bool.
+From TLV Require Import Base.Ops Base.Tensor Model.Prox Proofs.ProxProofs.
+Import ListNotations.
+"""
+
+
+def coq_grid(cf):
+    """second stage: the regenerated bodies differ syntactically from the model's; compare them as functions on a grid of rationals (t >= 0, s > 0)"""
+    defs = coq_closed_forms(cf).split("Lemma soft1_src_ok")[0]
+    return HEAD + defs + """
+Definition ts : list Q := [0; (1#2); 1; 3]%Q.
+Definition xs : list Q := [-3; -1; (-1#2); 0; (1#2); 1; 3]%Q.
+Definition ss : list Q := [(1#2); 1; 3; 5]%Q.
+Definition same (a b : list Q) : bool := Nat.eqb (length a) (length b) && forallb (fun p : Q * Q => Qeq_bool (fst p) (snd p)) (combine a b).
+Definition grid_ok : bool :=
+  forallb (fun t => same (soft_thresholding Qops t xs) (map (soft1_src Qops t) xs) && same (l2_square_prox Qops t xs) (map (l2sq_src Qops t) xs)
+    && forallb (fun s => same (l2_prox_with Qops s t xs) (if fltb Qops t s then map (l2_then_src Qops s t) xs else map (l2_else_src Qops s t) xs)) ss
+    && same (soft_sparsity_prox Qops (Qplus t 1) xs)
+            (map (fun ab => fmul Qops (fst ab) (ss_outer_src Qops (snd ab))) (combine (simplex_prox Qops (Qplus t 1) (map (ss_inner_src Qops) xs)) xs))) ts.
+Goal grid_ok = true. Proof. vm_compute. reflexivity. Qed.
+Goal True. idtac "@@C12-GRID-OK". exact I. Qed.
+"""
+
+
+def run_closed_forms(chk, d):
+    """the bodies of the closed-form operators regenerated from the source: identical to the model's definitions (Coq: reflexivity over an abstract
+    record of operations), or - after a refactoring - equal as functions on a grid; only a semantic difference is a broken tie.  A source shape the
+    translator does not recognise is reported here (the tie for these operators then rests on the per-run dynamic correspondence alone)."""
+    try:
+        cf = extract_closed_forms(C.REPO)
+    except Untranslatable as e:
+        return {"status": "not regenerated: source shape not recognised (dynamic correspondence only)", "detail": str(e)[:300]}
+    os.makedirs(d, exist_ok=True)
+    def coqc(name, text, marker):
+        fn = os.path.join(d, name)
+        with open(fn, "w") as f:
+            f.write(text)
+        p = subprocess.run(["timeout", "600", "coqc", "-w", "none", "-R", os.path.join(C.COQ, "theories"), "TLV", fn], capture_output=True, text=True, cwd=d)
+        return p.returncode == 0 and marker in p.stdout, p.stderr[-1200:]
+    ok, err = coqc("Closed.v", HEAD + coq_closed_forms(cf) + 'Goal True. idtac "@@C12-CLOSED-OK". exact I. Qed.\n', "@@C12-CLOSED-OK")
+    chk.checker_cmds.append("coqc on the closed-form operator bodies regenerated from the source (corr:C12-static)")
+    if ok:
+        shutil.rmtree(d, ignore_errors=True)
+        return {"status": "identical to the model's definitions", "bodies": sorted(cf)}
+    ok2, err2 = coqc("Grid.v", coq_grid(cf), "@@C12-GRID-OK")
+    if ok2:
+        shutil.rmtree(d, ignore_errors=True)
+        return {"status": "differ syntactically from the model's definitions, equal on the grid", "bodies": sorted(cf)}
+    chk.broken.append({"what": "corr:C12-static: a closed-form operator body regenerated from the source differs from Model/Prox.v as a function",
+                       "detail": {"bodies": cf, "stderr": err[-600:], "grid_stderr": err2[-600:]}})
+    return {"status": "mismatch"}
